@@ -126,6 +126,79 @@ def buildShapes (sg : Graph) : Except Failure (List Shape) :=
     | .error e => .error e
     | .ok ps => .ok (ns ++ ps)
 
+/-! ### `use_shapes`: `_build_node_shape_cache_from_list` -/
+
+structure Gathered where
+  nodeShapes : List Term := []
+  propShapes : List Term := []
+  paths : List (Term × Term) := []
+
+def shapeExpectingPreds : List Term := [shAnd, shNot, shOr, shXone, shProperty, shNode, shQualifiedValueShape]
+
+/-- `_gather_shapes(shapes_nodes, recurse_depth)`; `fuel` bounds the recursion like the code's
+    `recurse_depth > 10` test does -/
+def gatherShapes (sg : Graph) : Nat → Nat → List Term → Gathered → Except Failure Gathered
+  | _, _, [], acc => .ok acc
+  | 0, _, _ :: _, _ => .error .shapeLoad
+  | fuel+1, depth, s :: rest, acc =>
+    if depth > 10 then .error .shapeLoad else
+    if s ∈ acc.nodeShapes ∨ s ∈ acc.propShapes then gatherShapes sg (fuel+1) depth rest acc else
+    let po := sg.predicateObjects s
+    if po = [] then
+      (if depth < 1 then .error .shapeLoad else gatherShapes sg (fuel+1) depth rest acc)
+    else
+    let classes := sg.objects s rdfType
+    let known : Option Bool :=      -- some true = property shape, some false = node shape
+      (classes.filterMap fun c => if c = shPropertyShape then some true
+                                  else if c = shNodeShape then some false else none).head?
+    let pathVals : List Term := po.filterMap fun (p, o) => if p = shPath then some o else none
+    let badPath : Bool := match pathVals.head? with
+      | some t => t.isLit
+      | none => false
+    if known.isNone && badPath then .error .shapeLoad else
+    let isProp : Bool := match known with
+      | some b => b
+      | none => if pathVals ≠ [] then true else (sg.subjects shProperty s) ≠ []
+    let acc1 : Gathered :=
+      if isProp then
+        { acc with propShapes := s :: acc.propShapes,
+                   paths := (match known, pathVals.head? with
+                     | none, some pth => (s, pth) :: acc.paths
+                     | _, _ => acc.paths) }
+      else { acc with nodeShapes := s :: acc.nodeShapes }
+    let children : List Term := shapeExpectingPreds.flatMap fun p =>
+      if po.any (fun x => x.1 = p) then
+        (sg.objects s p).flatMap fun v =>
+          if p = shOr ∨ p = shXone ∨ p = shAnd then
+            ((rdfListItems sg v).getD []).filter fun i => !i.isLit
+          else if v.isLit then [] else [v]
+      else []
+    match (if children = [] then Except.ok acc1 else gatherShapes sg fuel (depth + 1) children acc1) with
+    | .error e => .error e
+    | .ok acc2 => gatherShapes sg (fuel+1) depth rest acc2
+termination_by fuel _ l _ => (fuel, l.length)
+
+/-- `shapes_from_uris(uris)`: the shape cache built from the selected shapes and what they reference -/
+def buildShapesFromList (sg : Graph) (uris : List Term) : Except Failure (List Shape) :=
+  match gatherShapes sg 24 0 uris {} with
+  | .error e => .error e
+  | .ok g =>
+    if g.nodeShapes.any (fun s => (sg.objects s shPath) ≠ []) then .error .shapeLoad else
+    if g.propShapes.any (fun s => s ∈ g.nodeShapes) then .error .shapeLoad else
+    match mapE (fun s => match g.paths.find? (fun x => x.1 = s) with
+        | some (_, pth) => .ok (s, pth)
+        | none => (match sg.objects s shPath with
+          | [pth] => if pth.isLit then .error Failure.shapeLoad else .ok (s, pth)
+          | _ => .error Failure.shapeLoad)) g.propShapes with
+    | .error e => .error e
+    | .ok pps =>
+      match mapE (fun s => mkShape sg s false none) g.nodeShapes with
+      | .error e => .error e
+      | .ok ns =>
+        match mapE (fun (x : Term × Term) => mkShape sg x.1 true (some x.2)) pps with
+        | .error e => .error e
+        | .ok ps => .ok (ns ++ ps)
+
 def lookupShape (shapes : List Shape) (n : Term) : Option Shape :=
   shapes.find? (fun s => s.node = n)
 
